@@ -27,10 +27,32 @@ type chanInfo struct {
 	cnt, ln, cp, cls string
 }
 
-// modelledChanType: channels of integer elements are modelled; all others stay opaque.
+// modelledChanType: channels of integer elements, of pointers (the element is the object reference: C10, channels of
+// *frame.Frame) and of empty structs (signal channels such as ctx.Done(); one dummy element value) are modelled; all
+// others stay opaque.
 func modelledChanType(t types.Type) bool {
 	ch, ok := types.Unalias(t).Underlying().(*types.Chan)
-	return ok && isInteger(ch.Elem())
+	if !ok {
+		return false
+	}
+	if isInteger(ch.Elem()) {
+		return true
+	}
+	switch u := types.Unalias(ch.Elem()).Underlying().(type) {
+	case *types.Pointer:
+		return true
+	case *types.Struct:
+		return u.NumFields() == 0
+	}
+	return false
+}
+
+// chanElemTerm: the model's element value for a sent value (signal channels carry one dummy value).
+func chanElemTerm(c *smt.Ctx, v Val) *smt.Term {
+	if len(v.Terms) == 0 {
+		return c.IntLit(0)
+	}
+	return v.Terms[0]
 }
 
 func (e *Engine) chanInfoOf(t types.Type) (*chanInfo, bool) {
@@ -39,10 +61,13 @@ func (e *Engine) chanInfoOf(t types.Type) (*chanInfo, bool) {
 	}
 	ch := types.Unalias(t).Underlying().(*types.Chan)
 	cs := e.comps(ch.Elem())
-	if len(cs) != 1 {
+	if len(cs) > 1 {
 		return nil, false
 	}
 	ts := typeStr(ch.Elem())
+	if len(cs) == 0 {
+		return &chanInfo{elem: ch.Elem(), es: smt.Int, cnt: "C<" + ts + ">.cnt", ln: "C<" + ts + ">.len", cp: "C<" + ts + ">.cap", cls: "C<" + ts + ">.closed"}, true
+	}
 	return &chanInfo{elem: ch.Elem(), es: cs[0], cnt: "C<" + ts + ">.cnt", ln: "C<" + ts + ">.len", cp: "C<" + ts + ">.cap", cls: "C<" + ts + ">.closed"}, true
 }
 
@@ -121,7 +146,7 @@ func (e *Engine) execSend(f *frame, st *State, x *ssa.Send, pos string) bool {
 	// a send on a nil channel or on a full channel blocks: in a sequential run nothing after it is reachable
 	e.assume(st, c.And(c.Not(c.Eq(ref, c.IntLit(0))), c.Op("bvslt", smt.Bool, c.Select(ln, ref), c.Select(cp, ref))))
 	e.note("a blocking channel operation that cannot proceed ends the sequential path")
-	e.chanSend(f, st, ci, ref, v.Terms[0], pos)
+	e.chanSend(f, st, ci, ref, chanElemTerm(c, v), pos)
 	return true
 }
 
@@ -141,12 +166,14 @@ func (e *Engine) execRecv(f *frame, st *State, x *ssa.UnOp, pos string) (Val, bo
 	// blocks unless there is an element or the channel is closed
 	e.assume(st, c.And(c.Not(c.Eq(ref, c.IntLit(0))), c.Or(nonEmpty, closed)))
 	got := e.chanRecvCond(f, st, ci, ref, nonEmpty, pos)
-	zero := e.zero(ci.elem).Terms[0]
-	val := c.Ite(nonEmpty, got, zero)
-	if x.CommaOk {
-		return Val{Typ: x.Type(), Terms: []*smt.Term{val, nonEmpty}}, true
+	var vals []*smt.Term
+	if zt := e.zero(ci.elem).Terms; len(zt) == 1 {
+		vals = append(vals, c.Ite(nonEmpty, got, zt[0]))
 	}
-	return Val{Typ: x.Type(), Terms: []*smt.Term{val}}, true
+	if x.CommaOk {
+		return Val{Typ: x.Type(), Terms: append(vals, nonEmpty)}, true
+	}
+	return Val{Typ: x.Type(), Terms: vals}, true
 }
 
 // chanRecvCond removes some element when cond holds (state updated under cond) and returns it.
@@ -210,6 +237,7 @@ func (e *Engine) execSelect(f *frame, st *State, x *ssa.Select, pos string) (Val
 	out.Terms = append(out.Terms, idx)
 	recvOk := c.False()
 	var recvVals []*smt.Term
+	nRecv := 0
 	for k, s := range x.States {
 		ci := infos[k]
 		ref := f.get(s.Chan).Terms[0]
@@ -217,7 +245,7 @@ func (e *Engine) execSelect(f *frame, st *State, x *ssa.Select, pos string) (Val
 		if s.Dir == types.SendOnly {
 			_, _, _, cls := e.chanArrs(st, ci)
 			e.oblige(st, "panic", "", c.Implies(chosen, c.Not(c.Select(cls, ref))), pos, "send on closed channel (select)")
-			v := f.get(s.Send).Terms[0]
+			v := chanElemTerm(c, f.get(s.Send))
 			cnt, ln, _, _ := e.chanArrs(st, ci)
 			inner := c.Select(cnt, ref)
 			one := c.BVLit64(1, 64)
@@ -240,11 +268,14 @@ func (e *Engine) execSelect(f *frame, st *State, x *ssa.Select, pos string) (Val
 		got := e.chanRecvCondAt(f, st, ci, ref, take, pos, saved)
 		st.Reach = saved
 		recvOk = c.Ite(chosen, nonEmpty, recvOk)
-		recvVals = append(recvVals, c.Ite(take, got, e.zero(ci.elem).Terms[0]))
+		nRecv++
+		if zt := e.zero(ci.elem).Terms; len(zt) == 1 {
+			recvVals = append(recvVals, c.Ite(take, got, zt[0]))
+		}
 	}
 	out.Terms = append(out.Terms, recvOk)
 	out.Terms = append(out.Terms, recvVals...)
-	if len(out.Terms) != 2+len(recvVals) || tup.Len() != 2+len(recvVals) {
+	if tup.Len() != 2+nRecv {
 		panic(reject(fmt.Sprintf("select: unexpected result shape (%d states)", n)))
 	}
 	return out, true
